@@ -152,6 +152,9 @@ enum Op {
     Gc(usize, Output<Datum<Command>, E>),
     /// `tu:<i>`: `Updatable::update` of terminal i
     Tu(usize),
+    /// `rb:<i>:<j>`: the three reads of terminal i while terminal j is mutably borrowed by the caller (must panic with a
+    /// `RefCell` borrow error when j is i or i's partner — never answer from unwritten memory)
+    Rb(usize, usize),
 }
 fn p_index(t: &str, limit: usize) -> R<usize> {
     let i = p_usize(t)?;
@@ -189,6 +192,9 @@ fn p_op(t: &str, nterm: usize, ndev: usize) -> R<Op> {
         Ok(Op::Gc(p_index(i, nterm)?, Output::<Datum<Command>, E>::dec(d)?))
     } else if let Some(r) = t.strip_prefix("tu:") {
         Ok(Op::Tu(p_index(r, nterm)?))
+    } else if let Some(r) = t.strip_prefix("rb:") {
+        let (i, j) = r.split_once(':').ok_or(Bad)?;
+        Ok(Op::Rb(p_index(i, nterm)?, p_index(j, nterm)?))
     } else if let Some(r) = t.strip_prefix("ut:") {
         Ok(Op::Ut(p_index(r, ndev)?))
     } else if let Some(r) = t.strip_prefix("u:") {
@@ -366,6 +372,12 @@ pub fn run(toks: &[&str], out: &mut Vec<String>) -> R<()> {
             Op::Gc(i, o) => {
                 script::set(&scr_c[i], o);
                 out.push(dash());
+            }
+            Op::Rb(i, j) => {
+                let held = terms[j].borrow_mut();
+                let tok = read_tok(terms[i]);
+                drop(held);
+                out.push(tok);
             }
             Op::Tu(i) => {
                 let ret = terms[i].borrow_mut().update();
